@@ -602,16 +602,17 @@ func c16Commit(c *ctx) {
 		why := "Verify does not compare SHA512_256i(D…) with C and reject on inequality"
 		for _, b := range acceptBlocks(fn, 0, true) {
 			ret := b.Instrs[len(b.Instrs)-1].(*ssa.Return)
-			facts := core.TFactsAt(b, 0)
+			// (depth 1: the comparison may sit in a private predicate `opens(C, D)`)
+			facts := core.TFactsAt(b, 1)
 			if _, isC := core.ConstBool(core.Strip(ret.Results[0])); !isC {
-				facts = append(facts, core.ExpandFacts(core.CondFacts(ret.Results[0], true, nil), 0)...)
+				facts = append(facts, core.ExpandFacts(core.CondFacts(ret.Results[0], true, nil), 1)...)
 			}
 			isHash := func(t *T) bool {
 				call, isCall := t.V.(*ssa.Call)
 				if !isCall || !core.CallIs(call, "~/common.SHA512_256i") {
 					return false
 				}
-				return core.IsFieldOf(core.TermOf(call.Call.Args[0]), recv, "D")
+				return core.IsFieldOf(core.FrameTerm(fn, call.Call.Args[0]), recv, "D")
 			}
 			isC := func(t *T) bool { return core.IsFieldOf(t, recv, "C") }
 			if core.PossibleCmp(facts, isHash, isC) == core.EQ {
@@ -639,8 +640,8 @@ func c16Commit(c *ctx) {
 			if _, has := core.HasCallFact(core.TFactsAt(ret.Block(), 0), true, "(*~/crypto/commitments.HashCommitDecommit).Verify"); !has {
 				ok, why = false, "the opened values are returned without a successful Verify"
 			}
-			sl, isSl := core.Strip(ret.Results[1]).(*ssa.Slice)
-			if !isSl || !core.IsFieldOf(core.TermOf(sl.X), recv, "D") || sl.High != nil {
+			sl, isSl := core.ResolveIn(fn, ret.Results[1]).(*ssa.Slice)
+			if !isSl || !core.IsFieldOf(core.FrameTerm(fn, sl.X), recv, "D") || sl.High != nil {
 				ok, why = false, "the opened values are not D[1:]"
 			} else if k, isK := core.ConstInt(sl.Low); !isK || k != 1 {
 				ok, why = false, "the opened values do not drop exactly the one prepended randomness element"
